@@ -70,7 +70,13 @@ func (x *Exec) callFunction(st *State, ins ssa.Instruction, fn *ssa.Function, bi
 			return
 		}
 	}
-	x.anchors(st, "before call "+x.anchorName(ins, full), nil)
+	if x.FC != nil && len(x.FC.Asserts) > 0 {
+		aenv := x.localEnv(st)
+		for i, a := range args {
+			aenv.vars[fmt.Sprintf("arg%d", i)] = a
+		}
+		x.anchors(st, "before call "+x.anchorName(ins, full), aenv)
+	}
 	// closures and synthetic wrappers: inline
 	if fn.Parent() != nil || len(bindings) > 0 {
 		x.inline(st, ins, fn, bindings, args, cont)
@@ -104,6 +110,9 @@ func (x *Exec) callFunction(st *State, ins ssa.Instruction, fn *ssa.Function, bi
 		return
 	}
 	// dependency
+	if x.syncCall(st, ins, full, args, cont) {
+		return
+	}
 	if r, ok := x.interpreted(st, full, args); ok {
 		cont(st, r)
 		return
@@ -129,7 +138,13 @@ func (x *Exec) invoke(st *State, ins ssa.Instruction, call *ssa.CallCommon, recv
 	it := call.Value.Type()
 	full := "(" + types.TypeString(types.Unalias(it), nil) + ")." + call.Method.Name()
 	sig := call.Method.Type().(*types.Signature)
-	x.anchors(st, "before call "+x.anchorName(ins, full), nil)
+	if x.FC != nil && len(x.FC.Asserts) > 0 {
+		aenv := x.localEnv(st)
+		for i, a := range args {
+			aenv.vars[fmt.Sprintf("arg%d", i)] = a
+		}
+		x.anchors(st, "before call "+x.anchorName(ins, full), aenv)
+	}
 	// nil interface receiver panics
 	x.emit(st, "nil", x.labelFor(ins, "nil", describe(call.Value)+"."+call.Method.Name()), Not(Eq(app("itag", recv.Term), "0")), "")
 	st.Assume(Not(Eq(app("itag", recv.Term), "0")))
@@ -234,6 +249,14 @@ func (x *Exec) callByContract(st *State, ins ssa.Instruction, full string, fc *F
 	}
 	if !fc.Pure {
 		x.emitSmoke(st, "before "+label)
+	}
+	if fc.MayPanic {
+		// a caller-supplied component (or a function that calls one) may exit by panic
+		ps := st.clone()
+		ps.Ghost["componentPanicked"] = "true"
+		pv := x.mk(x.D.Fresh("panicv", SIface), types.NewInterfaceType(nil, nil))
+		ps.Assume(Not(Eq(app("itag", pv.Term), "0")))
+		x.doPanic(ps, pv, "component:"+label)
 	}
 	pre := st.clone()
 	preAlloc := st.AllocTerm()
@@ -608,8 +631,8 @@ func (x *Exec) checkPost(st *State, ins *ssa.Return, results []Value) {
 		}
 	}
 	// join-before-return: nothing lent
-	if l, ok := st.Ghost["lent"]; ok && l != "0" {
-		x.emit(st, "join", "before-return", Eq(l, "0"), "all goroutines joined before return")
+	if l := x.lentAny(st); l != "false" {
+		x.emit(st, "go", "join-before-return", Not(l), "all goroutines joined before return")
 	}
 }
 
@@ -635,6 +658,10 @@ func (x *Exec) doPanic(st *State, pv Value, label string) {
 			x.doReturn(st, nil, rs)
 			return
 		}
+		if fr.GoRoot {
+			x.emit(st, "go", fr.OnPanicGo+":unrecovered-panic", "false", "a panic that escapes a goroutine aborts the process instead of resurfacing on the caller")
+			return
+		}
 		if fr.OnPanic != nil {
 			fr.OnPanic(st, fr.PanicVal)
 			return
@@ -642,6 +669,10 @@ func (x *Exec) doPanic(st *State, pv Value, label string) {
 		// outermost frame: panic escapes the function under verification
 		goal := "false"
 		clause := "function must not panic"
+		if x.FC != nil && x.FC.MayPanic {
+			goal = x.panicked(st)
+			clause = "may panic only when a caller-supplied component panicked"
+		}
 		if x.FC != nil && len(x.FC.Panics) > 0 {
 			env := x.entryEnv(st)
 			env.vars["panicvalue"] = fr.PanicVal
@@ -653,8 +684,8 @@ func (x *Exec) doPanic(st *State, pv Value, label string) {
 			goal = Or(gs...)
 		}
 		x.emit(st, "panic", label, goal, clause)
-		if l, ok := st.Ghost["lent"]; ok && l != "0" {
-			x.emit(st, "join", "before-panic", Eq(l, "0"), "all goroutines joined before the panic leaves")
+		if l := x.lentAny(st); l != "false" {
+			x.emit(st, "go", "join-before-panic", Not(l), "all goroutines joined before the panic leaves the function")
 		}
 	})
 }
@@ -1114,10 +1145,11 @@ func (x *Exec) anchors(st *State, anchor string, env *Env) {
 	if x.FC == nil {
 		return
 	}
-	for _, a := range x.FC.Asserts {
+	for ai, a := range x.FC.Asserts {
 		if a.Anchor != anchor {
 			continue
 		}
+		x.anchorHit[ai] = true
 		if env == nil {
 			env = x.localEnv(st)
 		}
